@@ -213,8 +213,9 @@ class RawClient(object):
     def answer(self, rng, vocab, m):
         c = rng.randrange(10)
         seq = m["seq"]
-        if rng.random() < .25:
+        if rng.random() < (.25 if m.get("handler") != rc.HANDLERS["HASH"] else .6):
             # before answering, make the server dispatch another request of ours while it is waiting for this answer
+            # (more often when it asks for the hash of a proxy we forged: it may be using it as a key somewhere)
             self.seq += 1
             h, boxed = gen_request(rng, self, vocab)
             self.send(rc.MSG_REQUEST, self.seq, (h, boxed))
@@ -342,6 +343,17 @@ def gen_request(rng, cli, vocab):
     if h == "DEL":
         return H[h], T(obj(), val(rng.choice([1, 0, -1, 10 ** 9, "x", None])))
     if h == "INSPECT":
+        if rng.random() < .3:
+            # something shaped like an id pack (a 3-tuple, or nearly) with references inside
+            def slot():
+                c = rng.randrange(6)
+                if c == 0:
+                    return obj()
+                if c < 3:
+                    return (rc.LABEL_REMOTE_REF, (rng.choice(["builtins.int", "builtins.str", "builtins.list", "evil.Klass"]),
+                                                  rng.randrange(1, 99), rng.choice([0, 0, rng.randrange(1, 99)])))
+                return val(rng.choice(["builtins.list", "x.Y", 0, 1, rng.randrange(10 ** 6), None]))
+            return H[h], T(T(*[slot() for _ in range(rng.choice([3, 3, 3, 2, 4]))]))
         if rng.random() < .4:
             return H[h], T(rng.choice([obj(), (rc.LABEL_REMOTE_REF, ("builtins.list", 5, rng.randrange(1, 99))), gen_boxed(rng, cli, vocab, 1)]))
         return H[h], val((gen_idpack(rng, cli, vocab),))
@@ -457,7 +469,11 @@ def session(ctx, rng, idx, vocab_base):
             except EOFError:
                 ended = True
                 break
-            wait_processed(cli, rng, vocab, net, b)
+            if wait_processed(cli, rng, vocab, net, b) == "silent":
+                # no answer to the sentinel for seconds: no verdict by itself, but no point in sending more; the state-based
+                # oracles below decide what this silence is
+                ctx.count("sessions_cut_after_unanswered_sentinel")
+                break
         ctx.count("messages_sent", nmsg)
         ctx.count("server_requests_answered", cli.answered)
         if ended or b.closed:
@@ -559,6 +575,7 @@ def wait_processed(cli, rng, vocab, net, b):
         if b.closed or net.a.closed or net.b.closed:
             return
         time.sleep(0.0005)
+    return "silent"
 
 
 def run(ctx):
